@@ -235,6 +235,32 @@ func (s *Stack) CacheDirs() (fscache, httpcache int) {
 	return
 }
 
+// WaitCacheWritesLanded waits until the directory caches have no write in progress (their "wip" directories are
+// empty).  Without sync_add a committed chunk is written to its cache file by a background goroutine; until that
+// file exists a tiny memory LRU may already have dropped the chunk, so "it is cached" only holds after this.
+func (s *Stack) WaitCacheWritesLanded(max time.Duration) bool {
+	deadline := time.Now().Add(max)
+	for {
+		busy := false
+		filepath.WalkDir(filepath.Join(s.Root, "stargz"), func(p string, d os.DirEntry, err error) error {
+			if err == nil && d.IsDir() && d.Name() == "wip" {
+				if ents, _ := os.ReadDir(p); len(ents) > 0 {
+					busy = true
+				}
+				return filepath.SkipDir
+			}
+			return nil
+		})
+		if !busy {
+			return true
+		}
+		if time.Now().After(deadline) {
+			return false
+		}
+		time.Sleep(time.Millisecond)
+	}
+}
+
 // DBBuckets counts the filesystem buckets in the metadata DB (-1 if the store is not the DB store).
 func (s *Stack) DBBuckets() int {
 	if s.DB == nil {
